@@ -400,7 +400,11 @@ Inductive hop :=
 | HPass (n : nat)         (* write notification + one worker pass with read buffer n *)
 | HMaint (n : nat)        (* maintenance tick; a resumed job is worked on with read buffer n *)
 | HTrunc (k : Z)          (* the writer truncates the file to k bytes *)
-| HMove.                  (* the file is renamed away (kind 0) or rotated: renamed + a new file under the old name (kind 1) *)
+| HMove                   (* the file is renamed away (kind 0) or rotated: renamed + a new file under the old name (kind 1) *)
+| HNotify (n : nat)       (* the REAL write notification (processNotification -> refreshFile): checkFileWasTruncated (position
+                             behind the end -> truncateJob) -> tryResumeJobAndUnlock, then the worker pass with read buffer n *)
+| HMaintExp (n : nat).    (* maintenance tick with remove_after > 0 and the deadline passed: an idle job whose file is still in
+                             place is deleted and its file REMOVED (with whatever tail was held back) *)
 
 Record hst := { h_job : wst; h_done : bool; h_deleted : bool; h_moved : bool; h_file : bytes }.
 
@@ -423,6 +427,21 @@ Definition h_maint (c : wcfg) (rd : nat -> bytes -> list bytes) (n : nat) (hs : 
     (3, [], {| h_job := h_job hs; h_done := h_done hs; h_deleted := true; h_moved := h_moved hs; h_file := h_file hs |})
   else (4, [], hs).
 
+(* provider.go refreshFile(isWrite): checkFileWasTruncated compares the file position with the size BEFORE the pass:
+   position behind the end -> truncateJob (seek 0, tail dropped); then the job is resumed and the worker reads from there *)
+Definition h_untrunc (hs : hst) : hst :=
+  if cur (h_job hs) >? len (h_file hs)
+  then {| h_job := {| cur := 0; tail := []; skip := skip (h_job hs) |}; h_done := h_done hs; h_deleted := h_deleted hs;
+          h_moved := h_moved hs; h_file := h_file hs |}
+  else hs.
+
+(* maintenanceJob with remove_after expired: as h_maint, but the idle job is deleted (code 3) and its file removed *)
+Definition h_maint_exp (c : wcfg) (rd : nat -> bytes -> list bytes) (n : nat) (hs : hst) : Z * list emit * hst :=
+  if negb (h_done hs) then (1, [], hs)
+  else if negb (len (h_file hs) =? cur (h_job hs)) then
+    let '(es, hs') := h_pass c rd n hs in (2, es, hs')
+  else (3, [], {| h_job := h_job hs; h_done := h_done hs; h_deleted := true; h_moved := h_moved hs; h_file := h_file hs |}).
+
 (* one step: (result code of a maintenance tick, what was handed to In, new state); a deleted job does nothing *)
 Definition h_step (c : wcfg) (rd : nat -> bytes -> list bytes) (op : hop) (hs : hst) : option Z * list emit * hst :=
   match op with
@@ -436,6 +455,10 @@ Definition h_step (c : wcfg) (rd : nat -> bytes -> list bytes) (op : hop) (hs : 
                else let '(es, hs') := h_pass c rd n hs in (None, es, hs')
   | HMaint n => if h_deleted hs then (None, [], hs)
                 else let '(r, es, hs') := h_maint c rd n hs in (Some r, es, hs')
+  | HNotify n => if h_deleted hs then (None, [], hs)
+                 else let '(es, hs') := h_pass c rd n (h_untrunc hs) in (None, es, hs')
+  | HMaintExp n => if h_deleted hs then (None, [], hs)
+                   else let '(r, es, hs') := h_maint_exp c rd n hs in (Some r, es, hs')
   end.
 
 (* a whole history: everything handed to In, in order, and the final state *)
@@ -471,27 +494,58 @@ Definition hop_of_sx (s : sx) : option hop :=
   | SL [SZ 2; SZ n] => if 1 <=? n then Some (HMaint (Z.to_nat n)) else None
   | SL [SZ 3; SZ k] => if 0 <=? k then Some (HTrunc k) else None
   | SL [SZ 4; SZ _] => Some HMove
+  | SL [SZ 5; SZ n] => if 1 <=? n then Some (HNotify (Z.to_nat n)) else None
+  | SL [SZ 6; SZ n] => if 1 <=? n then Some (HMaintExp (Z.to_nat n)) else None
   | _ => None
   end.
 
-Record hcase := { hk_cfg : wcfg; hk_mode : Z; hk_prefix : bytes; hk_ops : list hop }.
+(* hk_mode 0 | 1: the job of the export driver (seek to the end of the prefix | real initJobOffset(tail)).
+   Jobs made by the REAL refreshFile -> addJob -> initJobOffset (harness/c06/realjob.go):
+     2       added during the start phase, offsets_op reset: offset 0
+     (3 o ...) added during the start phase, offsets_op continue, the loaded offsets list this source with the stream
+             offsets o ...: seek to their minimum ((3) = not listed: offset 0); an offset behind the end is allowed (the
+             file shrank while file.d was down: the first pass detects the truncation)
+     4       added during the start phase, offsets_op tail (as mode 1)
+     5       added after the start phase: always reset, whatever offsets_op says (a file without extension)
+     6       as 2, but the watched path is a SYMLINK to the file (processNotification -> addSymlink, refreshSymlink):
+             the job carries the symlink, its source id and source name are the symlink's *)
+Record hcase := { hk_cfg : wcfg; hk_mode : Z; hk_start : Z; hk_prefix : bytes; hk_ops : list hop }.
 
-Definition hcase_of_sx (s : sx) : option hcase :=
+Fixpoint min_list (m : Z) (l : list Z) : Z := match l with [] => m | x :: r => min_list (Z.min m x) r end.
+Definition z_of_sx (s : sx) : option Z := match s with SZ z => Some z | _ => None end.
+
+Definition hmode_of_sx (s : sx) : option (Z * Z) :=
   match s with
-  | SL [SZ mx; cut; SZ mode; SB pre; ops] =>
-      match as_bool cut, as_list hop_of_sx ops with
-      | Some cu, Some ol =>
-          if (0 <=? mx) && ((mode =? 0) || (mode =? 1))
-          then Some {| hk_cfg := {| wmax := mx; wcut := cu |}; hk_mode := mode; hk_prefix := pre; hk_ops := ol |}
-          else None
-      | _, _ => None
+  | SZ m => if (m =? 0) || (m =? 1) || (m =? 2) || (m =? 4) || (m =? 5) || (m =? 6) then Some (m, 0) else None
+  | SL (SZ 3 :: os) =>
+      match opt_map z_of_sx os with
+      | Some [] => Some (3, 0)
+      | Some (o :: r) => if forallb (fun x => 0 <=? x) (o :: r) then Some (3, min_list o r) else None
+      | None => None
       end
   | _ => None
   end.
 
+Definition hcase_of_sx (s : sx) : option hcase :=
+  match s with
+  | SL [SZ mx; cut; mode; SB pre; ops] =>
+      match as_bool cut, as_list hop_of_sx ops, hmode_of_sx mode with
+      | Some cu, Some ol, Some (md, st) =>
+          if 0 <=? mx
+          then Some {| hk_cfg := {| wmax := mx; wcut := cu |}; hk_mode := md; hk_start := st; hk_prefix := pre; hk_ops := ol |}
+          else None
+      | _, _, _ => None
+      end
+  | _ => None
+  end.
+
+Definition h_job0 (k : hcase) : wst :=
+  if (hk_mode k =? 2) || (hk_mode k =? 5) || (hk_mode k =? 6) then {| cur := 0; tail := []; skip := false |}
+  else if hk_mode k =? 3 then {| cur := hk_start k; tail := []; skip := false |}
+  else fst (init_state (if hk_mode k =? 4 then 1 else hk_mode k) (hk_prefix k)).
+
 Definition h_init (k : hcase) : hst :=
-  {| h_job := fst (init_state (hk_mode k) (hk_prefix k)); h_done := false; h_deleted := false; h_moved := false;
-     h_file := hk_prefix k |}.
+  {| h_job := h_job0 k; h_done := false; h_deleted := false; h_moved := false; h_file := hk_prefix k |}.
 
 Definition sx_of_hstate (which : Z) (c : wcfg) (es : list emit) (hs : hst) : list sx :=
   let st := h_job hs in
@@ -510,14 +564,20 @@ Fixpoint h_trace (which : Z) (c : wcfg) (hs : hst) (hidden : bool) (ops : list h
           if k <=? len (h_file hs)
           then h_trace which c hs' (hidden || (k <? cur (h_job hs))) r
           else None
-      | HPass _ | HMaint _ =>
+      | HPass _ | HMaint _ | HNotify _ | HMaintExp _ =>
           if h_deleted hs then None
+          else if (match op with HMaintExp _ => h_moved hs | _ => false end) then None
           else
-            let ran := match op, res with HMaint _, Some 2 => true | HPass _, _ => true | _, _ => false end in
+            let ran := match op, res with
+                       | HMaint _, Some 2 => true | HMaintExp _, Some 2 => true | HPass _, _ => true | HNotify _, _ => true
+                       | _, _ => false end in
             if ran && hidden && (cur (h_job hs) <=? len (h_file hs)) then None
             else
+              let gone := match op with   (* op 6 also reports whether the file is gone from its path *)
+                          | HMaintExp _ => [of_bool (match res with Some 3 => true | _ => false end)]
+                          | _ => [] end in
               let item := match res with
-                          | Some code => SL (SZ code :: sx_of_hstate which c es hs')
+                          | Some code => SL (SZ code :: sx_of_hstate which c es hs' ++ gone)
                           | None => SL (sx_of_hstate which c es hs')
                           end in
               match h_trace which c hs' (if ran then false else hidden) r with
@@ -615,10 +675,44 @@ Fixpoint hpred (which : Z) (c : wcfg) (p : pst) (ops : list hop) (obs : list sx)
             end
       | _ => false
       end
+  | HNotify _ :: r =>
+      (* the notification detects a truncation below the read position BEFORE the pass: the epoch restarts at 0 and the
+         same pass already delivers the new content from there *)
+      match obs with
+      | SL [SL es; SZ cu; SZ fpos; SB tl_; skp] :: obs' =>
+          if p_dead p then false
+          else
+            let p1 := if p_pos p >? len (p_file p)
+                      then {| p_cur0 := 0; p_sk0 := p_sknow p; p_seen := []; p_got := []; p_file := p_file p;
+                              p_moved := p_moved p; p_dead := p_dead p |}
+                      else p in
+            match hjudge_pass which c p1 es cu fpos tl_ skp with
+            | Some p' => hpred which c p' r obs'
+            | None => false
+            end
+      | _ => false
+      end
+  | HMaintExp _ :: r =>
+      (* remove_after expired: a job that is not done is left alone (1), a grown / truncated file is read first (2),
+         an idle one is deleted and its file removed (3, gone); never "re-opened, nothing changes" (4) *)
+      match obs with
+      | SL [SZ code; SL es; SZ cu; SZ fpos; SB tl_; skp; gone] :: obs' =>
+          if p_dead p then false
+          else
+            let j := if code =? 2 then hjudge_pass which c p es cu fpos tl_ skp
+                     else if code =? 1 then hjudge_idle c p es cu fpos tl_ skp false
+                     else if (code =? 3) && (p_pos p =? len (p_file p)) then hjudge_idle c p es cu fpos tl_ skp true
+                     else None in
+            match j, as_bool gone with
+            | Some p', Some g => Bool.eqb g (code =? 3) && hpred which c p' r obs'
+            | _, _ => false
+            end
+      | _ => false
+      end
   end.
 
 Definition c06h_pred (which : Z) (k : hcase) (obs : sx) : bool :=
-  let st0 := fst (init_state (hk_mode k) (hk_prefix k)) in
+  let st0 := h_job0 k in
   match obs with
   | SL ol => hpred which (hk_cfg k)
                {| p_cur0 := cur st0; p_sk0 := skip st0; p_seen := []; p_got := []; p_file := hk_prefix k;
@@ -639,11 +733,162 @@ Definition c06h_run (which : Z) (case obs : sx) : verdict :=
       end
   end.
 
+(* ============================ compressed (lz4) jobs (which = 6 | 7) ==============================
+   worker.go:100-126: a job whose file name ends in .lz4 is read through lz4.NewReader(file); offsets count the bytes of
+   the DECOMPRESSED stream. Such a file cannot be seeked: Job.seek leaves the file alone and sets curOffset = 0, and a job
+   resumed from saved offsets skips what was processed by READING it,
+       for lastOffset+readBufferSize < minOffset { n, err := lz4Reader.Read(readBuf); if err == io.EOF { break }; lastOffset += n }
+   i.e. in whole read buffers, stopping up to one buffer BEFORE the minimum saved offset; the lines between that position
+   and the saved offset are handed to In again (Pipeline.In / PassEvent drop them by their offsets), the first of them
+   possibly without its beginning. The lz4 reader fills the buffer completely while the stream lasts and returns the
+   short last piece together with io.EOF (harness oracle lz4-reader-chunks), so inside the skip loop a short last piece
+   is swallowed without being counted.
+     case = (max cut (off ...) (#frame ...) bufsz lsof)   the file = the lz4 frames of the byte strings, one after the other;
+            (off ...) = the stream offsets loaded for this source (empty: not listed); ONE pass; lsof = what the lsof
+            stub of the harness answers (ignored here)
+     obs  = ((emit ...) curOffset #tail shouldSkip)        emit as in which 0 (which 6) / which 1 (which 7)          *)
+Fixpoint lz4_skip (fuel : nat) (n m L : Z) (rest : bytes) : Z * bytes :=
+  match fuel with
+  | O => (L, rest)
+  | S f => if L + n <? m
+           then if n <=? len rest then lz4_skip f n m (L + n) (drop n rest) else (L, [])
+           else (L, rest)
+  end.
+
+Record zcase := { z_cfg : wcfg; z_offs : list Z; z_frames : list bytes; z_n : nat }.
+
+Definition frame_of_sx (s : sx) : option bytes := match s with SB b => Some b | _ => None end.
+
+Definition zcase_of_sx (s : sx) : option zcase :=
+  match s with
+  | SL [SZ mx; cut; SL os; SL fs; SZ n; SZ _] =>
+      match as_bool cut, opt_map z_of_sx os, opt_map frame_of_sx fs with
+      | Some cu, Some ol, Some fl =>
+          if (0 <=? mx) && (1 <=? n) && forallb (fun x => 0 <=? x) ol
+          then Some {| z_cfg := {| wmax := mx; wcut := cu |}; z_offs := ol; z_frames := fl; z_n := Z.to_nat n |}
+          else None
+      | _, _, _ => None
+      end
+  | _ => None
+  end.
+
+Definition z_min (k : zcase) : Z := match z_offs k with [] => 0 | o :: r => min_list o r end.
+Definition z_content (k : zcase) : bytes := concat (z_frames k).
+
+(* the pass: (where reading for real starts, emits, state) *)
+Definition z_pass (k : zcase) : Z * list emit * wst :=
+  let b := z_content k in
+  let '(L, rest) := lz4_skip (S (length b)) (Z.of_nat (z_n k)) (z_min k) 0 b in
+  let '(es, st) := round (z_cfg k) {| cur := L; tail := []; skip := false |} (chunks (z_n k) rest) in
+  (L, es, st).
+
+Definition c06z_model (which : Z) (k : zcase) : sx :=
+  let '(L, es, st) := z_pass k in
+  (* Job.seek set curOffset to 0 and the skipped bytes are not added to it: curOffset = bytes read after the skipping *)
+  SL [SL (map (sx_of_emit which (z_cfg k)) es); SZ (cur st - L); SB (tail st); of_bool (skip st)].
+
+(* the property on what the implementation did: the lines of the file that end behind the minimum saved offset are
+   handed over exactly once, whole, in order, with their offsets in the decompressed stream (what is handed over with an
+   offset up to the saved one is dropped by the pipeline and not judged); the tail is the unterminated remainder.
+   Well-formed cases: the minimum saved offset is 0, a line end of the content, or behind its end. *)
+Definition line_end (m : Z) (b : bytes) : bool :=
+  (m =? 0) || ((m <=? len b) && match snd (split_lines (take m b)) with [] => true | _ :: _ => false end).
+
+Definition c06z_pred (which : Z) (k : zcase) (obs : sx) : bool :=
+  let c := z_cfg k in let b := z_content k in let m := z_min k in
+  match obs with
+  | SL [SL es; SZ _; SB tl_; skp] =>
+      match opt_map (emit_of_sx which) es, as_bool skp with
+      | Some es', Some skp' =>
+          forall2b (emit_okb c) (filter (fun e => m <? fst (fst e)) es')
+                                (filter (fun e => m <? fst e) (spec_emits c false 0 b))
+          && ((len b <? m) || tail_relb c tl_ (snd (split_lines b)))
+          && negb skp'
+      | _, _ => false
+      end
+  | _ => false
+  end.
+
+Definition c06z_run (which : Z) (case obs : sx) : verdict :=
+  match zcase_of_sx case with
+  | None => BadCase
+  | Some k =>
+      if negb (line_end (z_min k) (z_content k) || (len (z_content k) <? z_min k)) then BadCase else
+      let m := c06z_model which k in
+      if c06z_pred which k obs then (if sx_eqb m obs then Agree else Differ m) else Violates m
+  end.
+
+(* ============================ end to end: the real Pipeline.In behind the worker (which = 8) =====================
+   The recording inputer of the driver hands every (offset, data) to the REAL Pipeline.In of a started pipeline (raw decoder,
+   cut_off_event_by_limit_field set): checkInputBytes inside In, event.Offset = offsets.current, message = the admitted
+   bytes without their newline, the cut-off flag as a field. What arrives at the OUTPUT plugin is observed.
+     case = a which-0/1 case;  obs = (((event ...) cur filepos #tail skip) ...) one item per pass, event = (offset #message cut) *)
+Definition event := (Z * bytes * bool)%type.
+
+Definition events_of (c : wcfg) (es : list emit) : list event :=
+  flat_map (fun e => let '(out, cutf, ok) := check_input c (snd e) in
+                     if ok then [(fst e, removelast out, cutf)] else []) es.
+
+Definition sx_of_event (e : event) : sx := let '(o, m, cf) := e in SL [SZ o; SB m; of_bool cf].
+
+Definition sx_of_pass_e (c : wcfg) (p : list emit * wst) : sx :=
+  let '(es, st) := p in
+  SL [SL (map sx_of_event (events_of c es)); SZ (cur st); SZ (cur st); SB (tail st); of_bool (skip st)].
+
+Definition c06e_model (k : wcase) : sx :=
+  let '(st0, extra) := shift_state (k_base k) (init_state (k_mode k) (k_prefix k)) in
+  SL (map (sx_of_pass_e (k_cfg k)) (rounds_trace (k_cfg k) st0 (avail extra (k_rounds k)))).
+
+Definition event_of_sx (s : sx) : option event :=
+  match s with
+  | SL [SZ o; SB m; cf] => match as_bool cf with Some b => Some (o, m, b) | None => None end
+  | _ => None
+  end.
+
+Definition event_eqb (a b : event) : bool :=
+  let '(o1, m1, c1) := a in let '(o2, m2, c2) := b in Z.eqb o1 o2 && bytes_eqb m1 m2 && Bool.eqb c1 c2.
+
+(* after every pass: the events that reached the output so far = the admitted lines of everything readable so far (exact:
+   the junk behind a cut line never leaves In), and the saved state is the specification's *)
+Fixpoint pred_passes_e (c : wcfg) (st0 : wst) (seen : bytes) (got : list event)
+         (rl : list (bytes * nat)) (obs : list sx) : bool :=
+  match rl, obs with
+  | [], [] => true
+  | (a, _) :: rl', SL [SL es; SZ cu; SZ fpos; SB tl_; skp] :: obs' =>
+      match opt_map event_of_sx es, as_bool skp with
+      | Some es', Some skp' =>
+          let seen' := seen ++ a in
+          let got' := got ++ es' in
+          forall2b event_eqb got' (events_of c (spec_emits c (skip st0) (cur st0) seen'))
+          && Z.eqb cu (cur st0 + len seen') && Z.eqb fpos cu
+          && tail_relb c tl_ (snd (split_lines seen'))
+          && Bool.eqb skp' (skip st0 && negb (has_line seen'))
+          && pred_passes_e c st0 seen' got' rl' obs'
+      | _, _ => false
+      end
+  | _, _ => false
+  end.
+
+Definition c06e_run (case obs : sx) : verdict :=
+  match case_of_sx case with
+  | None => BadCase
+  | Some k =>
+      let m := c06e_model k in
+      let '(st0, extra) := shift_state (k_base k) (init_state (k_mode k) (k_prefix k)) in
+      let ok := match obs with
+                | SL ol => pred_passes_e (k_cfg k) st0 [] [] (avail extra (k_rounds k)) ol
+                | _ => false
+                end in
+      if ok then (if sx_eqb m obs then Agree else Differ m) else Violates m
+  end.
+
 Definition c06_entry (which : Z) (case obs : sx) : verdict :=
   match which with
   | 0 | 1 => c06_run which case obs
   | 3 => c06_multi case obs
   | 4 | 5 => c06h_run (which - 4) case obs
+  | 6 | 7 => c06z_run (which - 6) case obs
+  | 8 => c06e_run case obs
   | _ => match c06_ci_model case with
          | Some m => exact_verdict m obs
          | None => BadCase
